@@ -26,7 +26,8 @@ type Conn struct {
 	rdCur     int    // prefix handed out by Read
 	rdl, wdl  time.Time
 
-	closedLocal bool // client called Close
+	closedLocal bool // client called Close (or the incarnation was unwound)
+	ClosedLive  bool // client called Close while the simulation ran
 	Broken      int  // 0 alive, 1 peer closed (EOF after queued data), 2 reset (queued data lost)
 	pipe        bool // error flavour: net.Pipe-like, else TCP-like
 	Gen         int
@@ -46,6 +47,8 @@ type Conn struct {
 	handIdx   int
 	ConnackStep int // step at which the first broker packet was read completely
 	OnWire    func(c *Conn, p *WirePkt)
+	Hostile   *HostileInj // hostile bytes were queued: the stream is no longer the broker model's
+	Stalled   bool        // the broker sends nothing more on this connection
 }
 
 // WirePkt is a complete client packet on the wire.
@@ -155,6 +158,7 @@ func (c *Conn) Close() error {
 		return c.errClosed("close")
 	}
 	c.closedLocal = true
+	c.ClosedLive = !c.s.dead
 	c.CloseStep = c.w.Steps
 	c.w.Trouble()
 	c.w.Ev("close", c.id, "conn%d closed by client", c.id)
@@ -339,6 +343,12 @@ func (s *Sim) readAction(p *park) (Action, bool) {
 		copy(op.p, c.B2C[c.rdCur:c.rdCur+k])
 		c.rdCur += k
 		c.noteHanded()
+		if fl, ok := w.X.(*Flow); ok {
+			fl.LastReadTime[c.id] = s.Now()
+			if c.Hostile != nil && c.Hostile.HandStep == 0 && c.rdCur >= c.Hostile.End {
+				c.Hostile.HandStep = w.Steps
+			}
+		}
 		op.n = k
 		w.Ev("read", c.id, "%s conn%d <- %d bytes (of %d)", p.g, c.id, k, av)
 		s.unpark(p)
